@@ -81,6 +81,36 @@ pub fn cases(ctx: &Ctx) -> Vec<WCase> {
         s.settle_ms = 500;
         out.push(wcase(format!("twodrops-{i}"), s));
     }
+    // two peers of a four-peer mesh die within a few frames of each other (different last frames); ONE survivor drops both
+    // with explicit calls in the same tick, the other survivor learns of both drops from that survivor's gossip in one poll
+    for i in 0..ctx.n(500, 20_000) {
+        let mut rr = r.fork(0x4000_0000 + i as u64);
+        let mut s = Scn::base(rr.next());
+        s.peers = vec![vec![0], vec![1], vec![2], vec![3]];
+        s.pred = rr.below(2) as u8;
+        s.mp = rr.pick(&[4usize, 8, 12]);
+        s.delay = rr.below(3) as usize;
+        s.sparse = rr.chance(0.3);
+        s.sticky = rr.pick(&[1u32, 3]);
+        s.frames = 450;
+        s.notify_ms = 50_000;
+        s.timeout_ms = 60_000;
+        s.link = Link::clean(rr.pick(&[0u64, 10, 30]));
+        s.specs = vec![SpecCfg::new(0), SpecCfg::new(0)];
+        s.desync = if rr.chance(0.5) { Some(3) } else { None };
+        let t1 = rr.range(1500, 2500);
+        let (first, second) = if rr.chance(0.5) { (2usize, 3usize) } else { (3, 2) };
+        s.kill = Some(Kill { node: first, at_ms: t1, pdrop: 0.0 });
+        s.kill2 = Some(Kill { node: second, at_ms: t1 + rr.range(40, 120), pdrop: 0.0 });
+        let caller = rr.below(2) as usize;
+        let at = t1 + rr.range(300, 600);
+        s.actions.push(Action { node: caller, when: Trigger::AtMs(at), act: Act::Disconnect { h: 2 } });
+        s.actions.push(Action { node: caller, when: Trigger::AtMs(at), act: Act::Disconnect { h: 3 } });
+        s.start = Start::AllRunning;
+        s.limit_ms = 14_000;
+        s.settle_ms = 500;
+        out.push(wcase(format!("doubledrop-{i}"), s));
+    }
     out
 }
 
@@ -141,7 +171,7 @@ pub fn check(ctx: &Ctx) -> i32 {
     let res = par_run(ctx, &cs, &|c: &WCase| c.id.clone(), &|c: &WCase| run_case_k(c, reps));
     let meta = Meta {
         level: "exploration",
-        rule: format!("every scenario is executed {reps} times inside one process (each std HashMap gets a fresh RandomState, magic numbers and sync nonces are fresh random values) under the deterministic simulated clock and network, whose per-link PRNG streams and canonical delivery order make 'same received packets in the same order' hold inductively as long as each session's per-link output is deterministic. Scenarios: C01's space restricted to meshes of 3-4 peers or 2 local players per peer, 2-3 spectators, desync detection on, different input delays per local player (set_input_delay), a genuinely diverging peer in a third of them, plus two-peer deaths with two players per side, plus four-peer meshes in which two peers drop out one after the other (the first dropped by everybody with disconnect_player, the second by one survivor only, so that the other adopts it from gossip while holding a dead endpoint). Compared between repetitions, per node: the hash of every request list (kinds, frames, input values, statuses), final state, API results, and per remote address the event sequence with virtual timestamps. Non-trivial: >= 2 hash-iterated collections with >= 2 entries (players per peer / remotes / spectators) and >= 1 rollback. Distinct: configuration + trace hash."),
+        rule: format!("every scenario is executed {reps} times inside one process (each std HashMap gets a fresh RandomState, magic numbers and sync nonces are fresh random values) under the deterministic simulated clock and network, whose per-link PRNG streams and canonical delivery order make 'same received packets in the same order' hold inductively as long as each session's per-link output is deterministic. Scenarios: C01's space restricted to meshes of 3-4 peers or 2 local players per peer, 2-3 spectators, desync detection on, different input delays per local player (set_input_delay), a genuinely diverging peer in a third of them, plus two-peer deaths with two players per side, plus four-peer meshes in which two peers drop out one after the other (the first dropped by everybody with disconnect_player, the second by one survivor only, so that the other adopts it from gossip while holding a dead endpoint; or both drops made by one survivor in the same tick, so that the other learns of two newly dropped players with different last frames in a single poll). Compared between repetitions, per node: the hash of every request list (kinds, frames, input values, statuses), final state, API results, and per remote address the event sequence with virtual timestamps. Non-trivial: >= 2 hash-iterated collections with >= 2 entries (players per peer / remotes / spectators) and >= 1 rollback. Distinct: configuration + trace hash."),
         assumptions: std_assumptions(),
         floor_nontrivial: if ctx.quick() { 200 } else { 5000 },
         exhaustive: None,
